@@ -68,17 +68,21 @@ return { name = "%(name)s", flag = _G.FLAG, a = a }
 SOURCES = [
     "src/init.lua", "src/a.lua", "src/b.lua", "src/ab.lua", "src/sub/a.lua", "src/sub/b.lua", "src/sub/deep/c.lua",
     "src/x/sub/a.lua", "src/x/deep/c.lua", "src/x/y/sub/a.lua", "src/deep/c.lua", "src/other/z.luau",
+    "src/.tests/a.lua", "src/tests/a.lua", "src/x/.cache/c.lua",          # hidden directories next to plain ones
 ]
 BYSTANDER = "src/notes.txt"          # never collected: must never change and never be copied
 # paths that are only given to the glob engine / glob model (not files of the tree)
 EXTRA_PATHS = ["a.lua", "sub/a.lua", "src", "src/sub", "lib/sub/a.lua", "src/x/y/z/sub/a.lua", "src/sub/a.luau",
-               "src/suba.lua", "src/sub/a.lua/x", "x/sub/a.lua"]
+               "src/suba.lua", "src/sub/a.lua/x", "x/sub/a.lua", ".tests/a.lua", "tests/a.lua", ".hidden/b.lua", "hidden/b.lua",
+               ".cache/x/c.lua"]
 
 FIXED_POOL = [
     "**", "**/*.lua", "src/*.lua", "src/a.lua", "**/a.lua", "**/sub/a.lua", "**/sub/*.lua", "src/**/deep/c.lua",
     "**/x/sub/a.lua", "**/x/**/a.lua", "src/sub/**", "src/**/sub/**", "src/{a,b}.lua", "**/deep/c.lua", "src/other/*",
     "lib/**/*.lua", "*.lua", "src/x/y/sub/a.lua", "**/*.luau", "**/s?b/[ab].lua", "src/[!a]*.lua", "src/*/sub/*",
     "**/sub/**/c.lua", "**/src/sub/a.lua", "**/y/sub/a.lua", "src/**/a.lua",
+    # the first component starts with a dot: the pattern is used as written
+    ".tests/**", ".hidden/*.lua", "**/.cache/**", "src/.tests/**", "src/tests/**", "**/.tests/*.lua", "**/tests/*.lua", ".cache/**",
 ]
 POOL = list(FIXED_POOL)              # extended with generated patterns by run()
 POOL_INDEX = {p: i for i, p in enumerate(POOL)}
@@ -352,7 +356,7 @@ def gen_filter_cases(tier, seed):
         for k, (a, sk) in enumerate(itertools.product(fixed, fixed)):
             if a is None or sk is None:
                 continue
-            if quick and (k + pos) % 5:
+            if quick and (k + pos) % 8:
                 continue
             form = (k + pos) % 4
             put(pos, {"apply_to_files": [a] if form in (1, 3) else a, "skip_files": [sk] if form in (2, 3) else sk})
@@ -663,6 +667,7 @@ Definition diag_case (c : N * list bool) : string :=
     loc_bad = location_stream(ctx, loc_findings)
     reuse_findings = []
     reuse_stream(ctx, reuse_findings)
+    spelling_stream(ctx, reuse_findings)
     seen_reuse = set()
     for key, what, rep in reuse_findings:
         if key not in seen_reuse:
@@ -711,11 +716,14 @@ Definition diag_case (c : N * list bool) : string :=
 # ---------------------------------------------------------------------------------------------
 # where the configuration comes from must not change which path the patterns see
 
-LOC_SOURCES = ["project/" + s for s in SOURCES] + ["project/top.lua", "project/lib/a.lua"]
+LOC_SOURCES = ["project/" + s for s in SOURCES] + ["project/top.lua", "project/lib/a.lua",
+                                                    ".tests/a.lua", ".tests/sub/a.lua", "tests/a.lua", "tests/sub/a.lua"]
 LOC_POOL = ["project/src/**", "src/**", "**/sub/a.lua", "project/**/a.lua", "src/*.lua", "project/src/*.lua", "*/src/a.lua",
             "project/*/a.lua", "**/src/**", "src/sub/**", "project/src/sub/**", "**", "a.lua", "project/src/a.lua", "src/a.lua",
             "project/*.lua", "*.lua", "lib/**", "project/lib/**", "**/lib/*", "project/src/x/**/a.lua", "src/x/**", "x/**",
-            "top.lua", "project/top.lua", "sub/**", "project/src/sub/*.lua"]
+            "top.lua", "project/top.lua", "sub/**", "project/src/sub/*.lua",
+            ".tests/**", "tests/**", ".tests/*.lua", "tests/*.lua", "**/.tests/**", "*tests/**"]
+LOC_EXTRA_INPUTS = [".tests", "tests"]          # only for the filters that mention them
 LOCATIONS = [
     ("memory", {"config_memory": True}),                                           # Options::with_configuration
     ("root", {}),                                                                  # .darklua.json of the working directory
@@ -762,7 +770,7 @@ def location_stream(ctx, findings):
                 rules = [EMPTY, flt if level in "RB" else EMPTY, EMPTY]
                 text = config_text("marks", top, rules)
                 for loc, how in LOCATIONS:
-                    for inp in LOC_INPUTS:
+                    for inp in LOC_INPUTS + (LOC_EXTRA_INPUTS if "tests" in text else []):
                         requests.append(dict({"id": len(requests), "config": text, "input": inp, "output": "out"}, **how))
                         index.append((flt, level, loc, inp, top, rules, text))
         answers = talk(requests)[1:]
@@ -819,7 +827,7 @@ def location_stream(ctx, findings):
         levels_bad = 0
         for flt in flts:
             for loc, _ in LOCATIONS:
-                for inp in LOC_INPUTS:
+                for inp in LOC_INPUTS + LOC_EXTRA_INPUTS:
                     t, r = selected_by.get((id(flt), loc, inp, "T")), selected_by.get((id(flt), loc, inp, "R"))
                     if t is not None and r is not None and t != r:
                         levels_bad += 1
@@ -911,6 +919,87 @@ def reuse_stream(ctx, findings):
                "with and without properties) == fresh process() with the second configuration",
                len(edits) * len(SOURCES), differing, [{"first": edits[5][3], "second": edits[5][4]}],
                findings=sum(1 for _ in findings), edits=len(edits), fresh_runs=len(fresh_index))
+
+
+# ---------------------------------------------------------------------------------------------
+# the filters see the NORMALIZED source path however the input is spelled (directory and single-file inputs, with and
+# without an output)
+
+SPELLINGS = [
+    # (normalized input, is a file, other spellings of it)
+    ("project/src", False, ["./project/src", "project/./src", "project/src/", "project/src/../src", "project/lib/../src"]),
+    ("project/src/a.lua", True, ["./project/src/a.lua", "project/src/./a.lua", "project/src/../src/a.lua", "project/./src/a.lua"]),
+    ("project/src/sub/a.lua", True, ["./project/src/sub/a.lua", "project/src/sub/../sub/a.lua"]),
+]
+SPELL_FILTERS = [
+    (EMPTY, [EMPTY, {"apply_to_files": "project/src/**", "skip_files": None}, EMPTY]),
+    (EMPTY, [EMPTY, {"apply_to_files": None, "skip_files": ["project/src/*.lua"]}, EMPTY]),
+    ({"apply_to_files": None, "skip_files": "project/src/a.lua"}, [EMPTY, EMPTY, EMPTY]),
+    ({"apply_to_files": "project/src/*.lua", "skip_files": None}, [EMPTY, EMPTY, EMPTY]),
+    ({"apply_to_files": ["project/**"], "skip_files": None}, [{"apply_to_files": None, "skip_files": "**/sub/a.lua"}, EMPTY,
+                                                             {"apply_to_files": "**/a.lua", "skip_files": None}]),
+    ({"apply_to_files": None, "skip_files": ["**/sub/**"]}, [EMPTY, {"apply_to_files": "project/src/a.lua", "skip_files": None}, EMPTY]),
+]
+
+
+def spelling_stream(ctx, findings):
+    the_tree = {p: BODY % {"name": p} for p in LOC_SOURCES}
+    spec = {}
+    def sel(flt, f):
+        ap, sk = as_list(flt.get("apply_to_files")), as_list(flt.get("skip_files"))
+        for p in ap + sk:
+            if (p, f) not in spec:
+                spec[(p, f)] = bool(glob_regex(p).fullmatch(f))
+        return (not ap or any(spec[(p, f)] for p in ap)) and not any(spec[(p, f)] for p in sk)
+    requests = [{"tree": the_tree}]
+    index = []
+    for top, rules in SPELL_FILTERS:
+        text = config_text("marks", top, rules)
+        for norm, is_file, others in SPELLINGS:
+            for with_output in (True, False):
+                output = None if not with_output else ("out/single.lua" if is_file else "out")
+                for spelled in [norm] + others:
+                    requests.append({"id": len(requests), "config": text, "input": spelled, "output": output})
+                    index.append((top, rules, text, norm, is_file, output, spelled))
+    answers = talk(requests)[1:]
+    reference = {}
+    bad = 0
+    for (top, rules, text, norm, is_file, output, spelled), ans in zip(index, answers):
+        key = (text, norm, output)
+        rep = {"config": text, "input": spelled, "output": output, "normalized_input": norm, "tree": "vlib/c20.py LOC_SOURCES"}
+        if spelled == norm:
+            reference[key] = ans
+            # the normalized spelling itself against the python reading of the patterns
+            for src in LOC_SOURCES:
+                collected = src == norm if is_file else src.startswith(norm + "/")
+                if not collected:
+                    expect_src, expect_out = the_tree[src], None
+                else:
+                    marks = None if not sel(top, src) else [i + 1 for i in range(3) if sel(rules[i], src)][::-1]
+                    text_out = None if marks is None else "".join("--r%d\n" % k for k in marks) + the_tree[src]
+                    if output is None:
+                        expect_src, expect_out = (text_out if text_out is not None else the_tree[src]), None
+                    else:
+                        expect_src, expect_out = the_tree[src], text_out
+                outp = None if output is None else (output if is_file else "out/" + src[len(norm) + 1:])
+                got_out = ans["files"].get(outp) if (outp and collected) else None
+                if not ans["ok"] or ans["files"].get(src) != expect_src or (collected and outp and got_out != expect_out):
+                    bad += 1
+                    findings.append(("spelling:%s:%s" % (norm, "output" if output else "in-place"),
+                                     "input %s: the filters do not select by the normalized source path (%s)" % (spelled, src),
+                                     dict(rep, file=src, errors=ans["errors"][:2])))
+                    break
+            continue
+        ref = reference[key]
+        if ans["ok"] != ref["ok"] or ans["files"] != ref["files"]:
+            bad += 1
+            wrong = sorted(f for f in set(ans["files"]) | set(ref["files"]) if ans["files"].get(f) != ref["files"].get(f))
+            findings.append(("spelling:%s:%s" % (norm, "output" if output else "in-place"),
+                             "input spelled %r does not behave as %r (files differing: %s)" % (spelled, norm, ", ".join(wrong[:4])),
+                             dict(rep, files_differing=wrong, errors=ans["errors"][:2])))
+    ctx.stream("spelling of the input (directory and single file, `./`, `/./`, `/../`, trailing `/`; with and without an output): "
+               "same files as with the normalized input, which agree with the python reading of the patterns",
+               len(index) * len(LOC_SOURCES), len(index), [{"input": index[3][6], "config": index[3][2]}], mismatches=bad, runs=len(index))
 
 
 def replay(ctx, path):
